@@ -26,6 +26,7 @@ type Node struct {
 	Gid       int
 	ReadErrAt int // >=0: EIO when a read reaches this offset
 	ShortRead int // >0: reads return at most this many bytes
+	MTime     time.Time
 }
 
 //go:norace
@@ -37,15 +38,25 @@ func (w *World) put(p string, n *Node) {
 }
 
 type fileInfo struct {
-	name string
-	size int64
-	mode os.FileMode
+	name  string
+	size  int64
+	mode  os.FileMode
+	node  *Node
+	mtime time.Time
+}
+
+// SameFile reports whether two FileInfos of the simulated file system
+// describe the same file (same inode).
+func SameFile(a, b os.FileInfo) bool {
+	x, ok1 := a.(*fileInfo)
+	y, ok2 := b.(*fileInfo)
+	return ok1 && ok2 && x.node != nil && x.node == y.node
 }
 
 func (fi *fileInfo) Name() string       { return fi.name }
 func (fi *fileInfo) Size() int64        { return fi.size }
 func (fi *fileInfo) Mode() os.FileMode  { return fi.mode }
-func (fi *fileInfo) ModTime() time.Time { return time.Time{} }
+func (fi *fileInfo) ModTime() time.Time { return fi.mtime }
 func (fi *fileInfo) IsDir() bool        { return fi.mode.IsDir() }
 func (fi *fileInfo) Sys() any           { return nil }
 
@@ -134,7 +145,7 @@ func (w *World) Stat(p string) (os.FileInfo, error) {
 	case KSocket:
 		m |= os.ModeSocket
 	}
-	return &fileInfo{name: path.Base(p), size: int64(len(n.Data)), mode: m}, nil
+	return &fileInfo{name: path.Base(p), size: int64(len(n.Data)), mode: m, node: n, mtime: n.MTime}, nil
 }
 
 //go:norace
